@@ -983,9 +983,23 @@ func (h *concH) cleanupRace(g0 *cgor) {
 			}
 		}()
 		wg.Wait()
-		// every clean-up goroutine has slept its grace period by now; give their deletes (slow store) time to finish
-		if d := time.Until(last.Add(grace + 25*time.Millisecond)); d > 0 {
+		// every clean-up goroutine has slept its grace period by now; their deletes (slow store, busy machine) may still be
+		// on their way: wait until the replaced IDs are gone from cache and store, for at most three seconds. What is
+		// still there then stays there: nothing else will remove it.
+		if d := time.Until(last.Add(grace + 5*time.Millisecond)); d > 0 {
 			time.Sleep(d)
+		}
+		for waited := 0; waited < 3000; waited += 5 {
+			gone := true
+			for _, x := range replaced {
+				if sessions.VerifCached(x) != nil || h.store.hasRecord(x) {
+					gone = false
+				}
+			}
+			if gone {
+				break
+			}
+			time.Sleep(5 * time.Millisecond)
 		}
 		g0.stat["cleanup_iterations"]++
 		bad := func(format string, args ...interface{}) {
